@@ -863,18 +863,21 @@ package query
 //@   ensures [failed-statement-publishes-nothing] result2 != nil ==> published == old(published)
 //@   ghostset after call (query.ViewMap).Set#*: published = published + 1
 //@   ghostset after call (*query.ReferenceScope).ReplaceTemporaryTable#*: published = published + 1
+//@   assert after call (query.ViewMap).Load#*: [statement-never-takes-the-cached-view-itself] false
 //@ func Insert
 //@   property C14 C08
 //@   ownwrites E:value.Primary#
 //@   ensures [failed-statement-publishes-nothing] result2 != nil ==> published == old(published)
 //@   ghostset after call (query.ViewMap).Set#*: published = published + 1
 //@   ghostset after call (*query.ReferenceScope).ReplaceTemporaryTable#*: published = published + 1
+//@   assert after call (query.ViewMap).Load#*: [statement-never-takes-the-cached-view-itself] false
 //@ func Replace
 //@   property C14 C08
 //@   ownwrites E:value.Primary#
 //@   ensures [failed-statement-publishes-nothing] result2 != nil ==> published == old(published)
 //@   ghostset after call (query.ViewMap).Set#*: published = published + 1
 //@   ghostset after call (*query.ReferenceScope).ReplaceTemporaryTable#*: published = published + 1
+//@   assert after call (query.ViewMap).Load#*: [statement-never-takes-the-cached-view-itself] false
 //@ func Delete
 //@   property C14 C08 C05
 //@   mapkeys MD:int→bool by $key >= 0
@@ -882,6 +885,7 @@ package query
 //@   ensures [failed-statement-publishes-nothing] result2 != nil ==> published == old(published)
 //@   ghostset after call (query.ViewMap).Set#*: published = published + 1
 //@   ghostset after call (*query.ReferenceScope).ReplaceTemporaryTable#*: published = published + 1
+//@   assert after call (query.ViewMap).Load#*: [statement-never-takes-the-cached-view-itself] false
 //@ func AddColumns
 //@   property C14 C08 C05
 //@   assert after call EvaluateSequentially#*: [defaults-are-evaluated-against-the-old-header] base(view.Header) != base(header)
@@ -889,15 +893,18 @@ package query
 //@   ensures [failed-statement-publishes-nothing] result2 != nil ==> published == old(published)
 //@   ghostset after call (query.ViewMap).Set#*: published = published + 1
 //@   ghostset after call (*query.ReferenceScope).ReplaceTemporaryTable#*: published = published + 1
+//@   assert after call (query.ViewMap).Load#*: [statement-never-takes-the-cached-view-itself] false
 //@ func DropColumns
 //@   property C14 C08
 //@   ownwrites E:value.Primary#
 //@   ensures [failed-statement-publishes-nothing] result2 != nil ==> published == old(published)
 //@   ghostset after call (query.ViewMap).Set#*: published = published + 1
 //@   ghostset after call (*query.ReferenceScope).ReplaceTemporaryTable#*: published = published + 1
+//@   assert after call (query.ViewMap).Load#*: [statement-never-takes-the-cached-view-itself] false
 //@ func RenameColumn
 //@   property C14 C08
 //@   ownwrites E:value.Primary#
 //@   ensures [failed-statement-publishes-nothing] result1 != nil ==> published == old(published)
 //@   ghostset after call (query.ViewMap).Set#*: published = published + 1
 //@   ghostset after call (*query.ReferenceScope).ReplaceTemporaryTable#*: published = published + 1
+//@   assert after call (query.ViewMap).Load#*: [statement-never-takes-the-cached-view-itself] false
